@@ -1011,3 +1011,27 @@ def normalize_fn(fn, F, stop=(), maxdepth=3, resolve=None, accept=None):
     new = dict(x)
     new["body"] = _ptr_to_member(stmt(x["body"]))
     return new
+
+
+def flatten_conds(conds):
+    """[(condition, truth)] with `a && b` known true split into a and b, `a || b` known false split likewise, and `!x`
+    unfolded: the atomic facts that hold on the path."""
+    out = []
+
+    def add(c, t):
+        c0 = strip(c)
+        if not isinstance(c0, dict):
+            return
+        if c0.get("k") == "un" and c0.get("op") == "!":
+            add(c0["e"], not t)
+        elif c0.get("k") == "bin" and c0.get("op") == "&&" and t:
+            add(c0["lhs"], True)
+            add(c0["rhs"], True)
+        elif c0.get("k") == "bin" and c0.get("op") == "||" and not t:
+            add(c0["lhs"], False)
+            add(c0["rhs"], False)
+        else:
+            out.append((c0, t))
+    for c, t in conds:
+        add(c, t)
+    return out
